@@ -522,16 +522,61 @@ class Executor:
                     vals.append(self.expr_typed(ev, e, self.declared_type(t.id)))
                 else:
                     vals.append(ev.expr(e))
-            for t, v in zip(s.targets[0].elts, vals):
+            for t, v, e in zip(s.targets[0].elts, vals, s.value.elts):
                 if v is None:
                     self.bind_skipped(st, t.id)
                 else:
                     self.assign(st, t, v, ev)
+                    if isinstance(t, ast.Name):
+                        self.note_alias(t.id, e, v)
             return [(st, "normal", None)]
         v = self.expr_typed(ev, s.value, hint)
         for t in s.targets:
             self.assign(st, t, v, ev)
+            if isinstance(t, ast.Name):
+                self.note_alias(t.id, s.value, v)
         return [(st, "normal", None)]
+
+    # ---- aliasing lint: value semantics is only sound if no mutable value is mutated through a second name
+    def _chain(self, node):
+        """(root name, number of subscripts) of a Name / Attribute / Subscript chain, or None"""
+        depth = 0
+        while isinstance(node, ast.Subscript) and not isinstance(node.slice, ast.Slice):
+            node = node.value
+            depth += 1
+        if isinstance(node, ast.Name):
+            return node.id, depth
+        if isinstance(node, ast.Attribute) and isinstance(node.value, ast.Name):
+            return f"{node.value.id}.{node.attr}", depth
+        return None
+
+    def note_alias(self, view_name, value_node, v):
+        if v is None or not isinstance(v.t, (TList, TDict, TSet)):
+            return
+        ch = self._chain(value_node)
+        if ch is None:
+            return
+        self.__dict__.setdefault("_views", []).append((view_name, ch[0], ch[1]))
+        self.check_alias_lint()
+
+    def note_mutation(self, target_node, extra_depth=0):
+        ch = self._chain(target_node)
+        if ch is None:
+            return
+        self.__dict__.setdefault("_mutated", []).append((ch[0], ch[1] + extra_depth))
+        self.check_alias_lint()
+
+    def check_alias_lint(self):
+        views = self.__dict__.get("_views", [])
+        muts = self.__dict__.get("_mutated", [])
+        for view, owner, odepth in views:
+            for root, d in muts:
+                if root == view and d >= 1:
+                    raise Unsupported(f"'{view}' is a second name for (part of) '{owner}' and is mutated in place: outside the value-semantics subset")
+                if root == owner and d >= odepth + 2:
+                    raise Unsupported(f"'{owner}' is mutated below the level at which '{view}' aliases it: outside the value-semantics subset")
+                if root == owner and odepth == 0 and d >= 1 and view != owner:
+                    raise Unsupported(f"'{owner}' is mutated in place while '{view}' names the same object: outside the value-semantics subset")
 
     def is_skipped(self, nm):
         decl = self.variant.get(nm, self.spec.types.get(nm))
@@ -589,6 +634,8 @@ class Executor:
             st.vars[key] = coerce_to(v, ft)
             return
         if isinstance(target, ast.Subscript):
+            if not getattr(self, "_in_store_back", False):
+                self.note_mutation(target)
             ev2 = Eval(self, st)
             base = ev2.expr(target.value)
             if isinstance(target.slice, ast.Slice):
